@@ -362,7 +362,7 @@ LEVEL = 'model_checking'
 PROPS = {
     'C01': dict(groups=['tree', 'alt', 'ovl']),
     'C02': dict(groups=['tree']),
-    'C03': dict(groups=['tree', 'alt', 'ovl']),
+    'C03': dict(groups=['tree', 'alt', 'ovl', 'handles', 'xfer']),
     'C05': dict(groups=['tree', 'alt', 'ovl']),
     'C12': dict(groups=['tree', 'alt', 'ovl', 'join', 'faults']),
     'C13': dict(groups=['tree', 'alt', 'ovl', 'join', 'handles', 'hostile', 'hostiledir', 'emb']),
@@ -371,7 +371,7 @@ PROPS = {
     'C09': dict(groups=['ovl']),
     'C06': dict(groups=['join']),
     'C15': dict(groups=['async', 'join']),
-    'C19': dict(groups=['times', 'tree', 'alt', 'ovl']),
+    'C19': dict(groups=['times', 'handles', 'tree', 'alt', 'ovl']),
     'C18': dict(groups=['emb']),
     'C20': dict(groups=['faults']),
     'C16': dict(groups=['conc16']),
